@@ -2,7 +2,6 @@
 (* Trace validation of dispatches to generated methods against Binding. *)
 EXTENDS Binding, TraceBase
 DevKwRebind == {"KwRebind"}
-DevViewSelf == {"ViewSelfDocumented"}
 
 KeysOf(k) == {x \in KeyNames : k[x]}
 TraceInit == /\ tid \in 1..NTraces /\ l = 1
@@ -19,11 +18,10 @@ TDirect == /\ IsEvent("Direct") /\ pc = "recv"
                  /\ E.va = ExpectedVa /\ E.kw = ExpectedKw
            /\ UNCHANGED vars
 \* C17: the parameter names (and the required ones) the generated OpenAPI request schema / OpenRPC params list for this method
-TDoc == /\ IsEvent("Doc") /\ pc = "recv"
-        /\ LET extra == IF "ViewSelfDocumented" \in Deviations /\ flavour = "view" THEN {"self"} ELSE {} IN
-              \* known deviation ViewSelfDocumented: class based view methods are documented with their `self` parameter
-              /\ {E.names[k] : k \in DOMAIN E.names} = DocNames \cup extra
-              /\ {E.required[k] : k \in DOMAIN E.required} = DocRequired \cup extra
+TDoc == /\ IsEvent("Doc") /\ pc = "recv" /\ E.kind \in {"openapi", "openrpc"}
+        \* (for class based views too: neither the instance parameter nor the view's context name plays a part - repaired in fe4ee47)
+        /\ {E.names[k] : k \in DOMAIN E.names} = DocNames
+        /\ {E.required[k] : k \in DOMAIN E.required} = DocRequired
         /\ UNCHANGED vars
 Obs == [ran |-> TRUE, vctx |-> E.vctx, rec |-> E.rec, va |-> E.va, kw |-> E.kw]
 TExec   == IsEvent("Exec") /\ Exec(Obs)
